@@ -513,6 +513,9 @@ type c11RushResult struct {
 }
 
 func c11ExecRush(in c11Input) c11RushResult {
+	if in.Mode == "uni" {
+		return c11ExecRushUni(in)
+	}
 	res := c11RushResult{late: make([][]int, in.Subs)}
 	ncl := in.Closes
 	if ncl < 1 {
@@ -621,6 +624,106 @@ func c11ExecRush(in c11Input) c11RushResult {
 		g := got
 		mu.Unlock()
 		if g {
+			break
+		}
+	}
+	return res
+}
+
+// c11ExecRushUni: the same question asked with the scheduler as a deterministic seam. The whole
+// call sequence runs on ONE processor (GOMAXPROCS(1)) in one goroutine that never yields before
+// its own Close: Subscribe x n (the forwarders are spawned but have not run), Broadcast x m (the
+// values sit in the forwarders' buffers), the other Close calls are spawned (not run either), and
+// the goroutine calls Close itself. The subscribers' channels are BUFFERED with room for
+// everything, so a forwarder that still hands a value over never needs a reader. The goroutine
+// of whichever Close call returns first counts, right after the return, what each channel
+// holds; whatever a channel holds beyond that at the end was handed over after a Close had
+// returned.
+func c11ExecRushUni(in c11Input) c11RushResult {
+	res := c11RushResult{late: make([][]int, in.Subs)}
+	ncl := in.Closes
+	if ncl < 1 {
+		ncl = 1
+	}
+	for trial := 0; trial < in.Reps; trial++ {
+		res.trials++
+		b := broadcaster.New[int]()
+		chs := make([]chan int, in.Subs)
+		cancels := make([]context.CancelFunc, in.Subs)
+		ctxs := make([]context.Context, in.Subs)
+		for i := range chs {
+			chs[i] = make(chan int, in.Bcasts+1)
+			ctxs[i], cancels[i] = context.WithCancel(context.Background())
+		}
+		before := make([]int, in.Subs)
+		var once sync.Once
+		doClose := func() {
+			if c11Guard("Close", b.Close) {
+				once.Do(func() {
+					for i, c := range chs {
+						before[i] = len(c)
+					}
+				})
+			}
+		}
+		fin := make(chan struct{})
+		if err := c11Settle(); err != nil {
+			res.hang = err.Error()
+			return res
+		}
+		old := runtime.GOMAXPROCS(1)
+		go func() {
+			defer close(fin)
+			for i := range chs {
+				i := i
+				c11Guard("Subscribe", func() { b.Subscribe(ctxs[i], chs[i]) })
+			}
+			for v := 1; v <= in.Bcasts; v++ {
+				v := v
+				c11Guard(fmt.Sprintf("Broadcast(%d)", v), func() { b.Broadcast(v) })
+			}
+			var wg sync.WaitGroup
+			for k := 1; k < ncl; k++ {
+				wg.Add(1)
+				go func() { defer wg.Done(); doClose() }()
+			}
+			doClose()
+			wg.Wait()
+		}()
+		t := time.NewTimer(10 * time.Second)
+		hung := false
+		select {
+		case <-fin:
+			t.Stop()
+		case <-t.C:
+			hung = true
+		}
+		runtime.GOMAXPROCS(old)
+		if hung {
+			res.hang = "the calls did not all return within 10 s (every subscriber channel has room: nothing may block)"
+			return res
+		}
+		err := c11Settle()
+		for _, c := range cancels {
+			c()
+		}
+		if err != nil {
+			res.hang = err.Error()
+			return res
+		}
+		got := false
+		for i, c := range chs {
+			var vals []int
+			for len(c) > 0 {
+				vals = append(vals, <-c)
+			}
+			if len(vals) > before[i] {
+				res.late[i] = append(res.late[i], vals[before[i]:]...)
+				got = true
+			}
+		}
+		_ = c11Settle()
+		if got {
 			break
 		}
 	}
